@@ -511,7 +511,7 @@ Proof.
   - destruct (cb && is_request mt); [rewrite completions_completes|]; reflexivity.
 Qed.
 
-Lemma owed_once rp b : b <> BNever -> length (owed_g rp b) = 1%nat.
+Lemma owed_once rp b : b <> BNever -> b <> BDefer -> length (owed_g rp b) = 1%nat.
 Proof. destruct b; simpl; congruence. Qed.
 
 (* under "no F4", a good classification of a call with a completion function is a request *)
@@ -646,7 +646,7 @@ Proof.
 Qed.
 
 Lemma dispatch_one_response ess rid route dec rawok cx b :
-  route <> [] -> f4_disp ess rid route dec = false -> rid <> 0 -> b <> BNever ->
+  route <> [] -> f4_disp ess rid route dec = false -> rid <> 0 -> b <> BNever -> b <> BDefer ->
   let d := handle_request (map build ess) rid route dec rawok cx b in
   length (d_rsp d) = 1%nat /\
   (first_resolving ess route = None -> d_rsp d = [RspNoMethod] /\ d_inv d = []) /\
@@ -656,13 +656,13 @@ Lemma dispatch_one_response ess rid route dec rawok cx b :
      expect_ser es SProto route dec cx = VGood mt seen ->
      d_inv d = [EvInvoke (m_uid mt) seen] /\ d_rsp d = map RspDone (owed_g true b)).
 Proof.
-  intros NE NF NR NB. cbv zeta. rewrite handle_request_eq by assumption.
+  intros NE NF NR NB ND. cbv zeta. rewrite handle_request_eq by assumption.
   assert (Q : negb (rid =? 0) = true) by (apply negb_true_iff, Z.eqb_neq; exact NR).
   rewrite Q. destruct (first_resolving ess route) as [es|].
   - cbv zeta. destruct (expect_ser es SProto route dec cx) as [|mt seen] eqn:E;
       cbn [d_rsp d_inv disp_rsps disp_inv length].
     + repeat split; try discriminate; intros; congruence.
-    + rewrite map_length, (owed_once true b NB).
+    + rewrite map_length, (owed_once true b NB ND).
       split; [reflexivity|]. split; [discriminate|]. split.
       * intros es0 X Y. inv X. congruence.
       * intros es0 mt0 seen0 X Y. inv X. rewrite E in Y. inv Y. split; reflexivity.
@@ -741,48 +741,115 @@ Proof.
     + cbn [d_inv d_rsp]. destruct (negb (rid =? 0)); reflexivity.
 Qed.
 
+(* the completion function a call leaves behind, from the entries alone *)
+Lemma call_keeps_spec es route c a cb b :
+  call_keeps (build es) route c a cb b = spec_keeps (expect_call es route c a) cb b.
+Proof.
+  unfold call_keeps, expect_call, spec_keeps. rewrite find_handler_resolve.
+  destruct (resolve es route) as [mt|] eqn:R; cbn [option_map]; [|reflexivity].
+  rewrite (shape_req mt (resolve_shape _ _ _ R)). unfold fits.
+  simpl h_ctx. simpl h_arg. simpl h_meth.
+  change (in_ mt 1) with (ctx_type mt). change (in_ mt 2) with (msg_type mt).
+  change (in_ mt 3) with (cb_type mt).
+  destruct (is_request mt) eqn:Q; simpl.
+  - destruct cb, (ctx_fits (ctx_type mt) c), (arg_fits (msg_type mt) a), (p_cbfit (cb_type mt));
+      simpl; rewrite ?Q; reflexivity.
+  - rewrite andb_true_r.
+    destruct (ctx_fits (ctx_type mt) c && arg_fits (msg_type mt) a); [|reflexivity].
+    rewrite Q, andb_false_r. reflexivity.
+Qed.
+
+Lemma call_ser_keeps_spec es s route dec c cb b :
+  call_ser_keeps (build es) s route dec c cb b = spec_keeps (expect_ser es s route dec c) cb b.
+Proof.
+  unfold call_ser_keeps, expect_ser.
+  destruct s; try reflexivity;
+    rewrite get_arg_type_resolve;
+    (destruct (resolve es route) as [mt|] eqn:R; simpl; [|reflexivity]);
+    rewrite (shape_msg_ptr mt (resolve_shape _ _ _ R)); simpl;
+    (destruct (decode dec (p_tid (msg_type mt))) as [v|]; [|reflexivity]);
+    apply call_keeps_spec.
+Qed.
+
+Lemma dispatch_keeps_spec ess rid route dec cx b :
+  dispatch_keeps (map build ess) rid route dec cx b = spec_disp_keeps ess rid route dec cx b.
+Proof.
+  unfold dispatch_keeps, spec_disp_keeps. destruct (is_empty route); [reflexivity|].
+  rewrite find_build. destruct (first_resolving ess route) as [es|]; cbn [option_map]; [|reflexivity].
+  apply call_ser_keeps_spec.
+Qed.
+
 Definition Inv (s : st) (ss : sst) : Prop :=
-  forall k, s_entries (s k) = ss_reg (ss k) /\ s_cs (s k) = build (ss_built (ss k)).
+  (forall k, s_entries (col s k) = ss_reg (scol_of ss k) /\
+             s_cs (col s k) = build (ss_built (scol_of ss k))) /\
+  g_pend s = sg_pend ss /\ g_pos s = sg_pos ss.
 
 Lemma inv_init : Inv init sinit.
-Proof. intro k. split; reflexivity. Qed.
+Proof. split; [intro k; split; reflexivity | split; reflexivity]. Qed.
+
+Lemma tables_builts s ss ks : Inv s ss -> tables s ks = map build (builts ss ks).
+Proof.
+  intros [I _]. unfold tables, builts. rewrite map_map. apply map_ext. intro k. apply I.
+Qed.
 
 Lemma step_inv s ss o : Inv s ss -> Inv (fst (step s o)) (sstep ss o).
 Proof.
-  intro I. destruct o as [k e op_|k|k r|k r|k sr r bytes dec c cb b|k r a c cb b|ks rid r bytes dec rawok cx b];
-    simpl; try exact I.
-  - intro j. unfold upd, supd. destruct (j =? k); [|apply I].
+  intros [I [Ip In]].
+  destruct o as [k e op_|k|k r|k r|k sr r bytes dec c cb b|k r a c cb b|ks rid r bytes dec rawok cx b|n kd];
+    simpl.
+  - split; [|split; simpl; congruence]. unfold col, scol_of in *. intro j. simpl. unfold upd, supd.
+    destruct (j =? k); [|apply I].
     destruct (I k) as [Ie Ic]. split; simpl; [rewrite Ie; reflexivity | exact Ic].
-  - intro j. unfold upd, supd. destruct (j =? k); [|apply I].
+  - split; [|split; simpl; congruence]. unfold col, scol_of in *. intro j. simpl. unfold upd, supd.
+    destruct (j =? k); [|apply I].
     destruct (I k) as [Ie Ic]. split; simpl; [exact Ie | rewrite Ie; reflexivity].
+  - split; [exact I | split; simpl; congruence].
+  - split; [exact I | split; simpl; congruence].
+  - split; [exact I|]. split; simpl; [|congruence].
+    destruct (I k) as [_ Ic]. rewrite Ic, call_ser_keeps_spec, Ip, In. reflexivity.
+  - split; [exact I|]. split; simpl; [|congruence].
+    destruct (I k) as [_ Ic]. rewrite Ic, call_keeps_spec, Ip, In. reflexivity.
+  - split; [exact I|]. split; simpl; [|congruence].
+    rewrite (tables_builts s ss ks (conj I (conj Ip In))), dispatch_keeps_spec, Ip. reflexivity.
+  - destruct (n <? 0); [split; [exact I | split; simpl; congruence]|].
+    rewrite <- Ip. destruct (fire_nth (g_pend s) (Z.to_nat n) kd) as [[d e] l].
+    split; [exact I | split; simpl; congruence].
 Qed.
 
-Lemma tables_builts s ss ks : Inv s ss -> map (fun k => s_cs (s k)) ks = map build (builts ss ks).
+Lemma fev_eqb_refl x : fev_eqb x x = true.
 Proof.
-  intro I. unfold builts. rewrite map_map. apply map_ext. intro k. apply I.
+  destruct x as [p e|r x]; simpl; rewrite Z.eqb_refl; simpl.
+  - destruct e; reflexivity.
+  - destruct x as [|e]; simpl; [reflexivity | destruct e; reflexivity].
 Qed.
+
+Lemma fevs_eqb_refl l : fevs_eqb l l = true.
+Proof. induction l as [|x r IH]; simpl; [reflexivity|]. rewrite fev_eqb_refl. exact IH. Qed.
 
 Lemma step_ok s ss o :
   Inv s ss -> op_f4 ss o = false -> op_ok ss o (snd (step s o)) = true.
 Proof.
-  intros I NF.
-  destruct o as [k e op_|k|k r|k r|k sr r bytes dec c cb b|k r a c cb b|ks rid r bytes dec rawok cx b];
+  intros [I [Ip In]] NF.
+  destruct o as [k e op_|k|k r|k r|k sr r bytes dec c cb b|k r a c cb b|ks rid r bytes dec rawok cx b|n kd];
     simpl.
   - reflexivity.
   - reflexivity.
   - destruct (I k) as [_ Ic]. rewrite Ic, has_method_resolve. apply Bool.eqb_reflx.
   - destruct (I k) as [_ Ic]. rewrite Ic, get_arg_type_resolve.
-    destruct (resolve (ss_built (ss k)) r) as [mt|]; simpl; [apply Z.eqb_refl | reflexivity].
+    destruct (resolve (ss_built (scol_of ss k)) r) as [mt|]; simpl; [apply Z.eqb_refl | reflexivity].
   - destruct (I k) as [_ Ic]. simpl in NF. rewrite Ic, call_ser_trace by exact NF. simpl.
     apply demand_expected. intros ->.
-    destruct (expect_ser (ss_built (ss k)) sr r dec c) as [|mt seen] eqn:E; [exact Logic.I|].
+    destruct (expect_ser (ss_built (scol_of ss k)) sr r dec c) as [|mt seen] eqn:E; [exact Logic.I|].
     eapply good_is_request_ser; eauto.
   - destruct (I k) as [_ Ic]. simpl in NF. rewrite Ic, call_trace by exact NF.
     apply demand_expected. intros ->.
-    destruct (expect_call (ss_built (ss k)) r c a) as [|mt seen] eqn:E; [exact Logic.I|].
+    destruct (expect_call (ss_built (scol_of ss k)) r c a) as [|mt seen] eqn:E; [exact Logic.I|].
     eapply good_is_request_direct; eauto.
-  - simpl in NF. rewrite (tables_builts s ss ks I).
+  - simpl in NF. rewrite (tables_builts s ss ks (conj I (conj Ip In))).
     apply (demand_disp_model (builts ss ks) rid r dec rawok cx b NF).
+  - unfold demand_fire. destruct (n <? 0); [reflexivity|]. rewrite <- Ip.
+    destruct (fire_nth (g_pend s) (Z.to_nat n) kd) as [[d e] l]. simpl.
+    rewrite fevs_eqb_refl, Bool.eqb_reflx. reflexivity.
 Qed.
 
 Lemma monitor_run_from ops : forall s ss,
@@ -816,30 +883,51 @@ Proof.
 Qed.
 
 Lemma tables_of_last_build ops k :
-  s_cs (final ops k) = build (ss_built (sfinal ops k)) /\
-  s_entries (final ops k) = ss_reg (sfinal ops k).
+  s_cs (col (final ops) k) = build (ss_built (scol_of (sfinal ops) k)) /\
+  s_entries (col (final ops) k) = ss_reg (scol_of (sfinal ops) k).
 Proof.
-  destruct (inv_run_from ops init sinit inv_init k) as [A B]. split; assumption.
+  destruct (inv_run_from ops init sinit inv_init) as [I _]. destruct (I k) as [A B].
+  split; assumption.
 Qed.
 
-(* ---- frame: calls leave no trace ----
-   HasMethod / GetArgType / CallWithSerialize / Call / a dispatched request never change what any
-   later operation observes: there is no state besides the entries and the tables of the last
-   Build (no argument is reused, nothing is remembered from an earlier payload). *)
+Lemma kept_of_last_build ops :
+  g_pend (final ops) = sg_pend (sfinal ops) /\ g_pos (final ops) = sg_pos (sfinal ops).
+Proof. destruct (inv_run_from ops init sinit inv_init) as [_ P]. exact P. Qed.
+
+(* ---- frame: calls leave no trace in the collections ----
+   HasMethod / GetArgType / CallWithSerialize / Call / a dispatched request / running a kept
+   completion function never change what any later query, call or request observes: nothing is
+   remembered from an earlier payload, no argument or completion function is reused.  (The only
+   thing a call can leave behind is its own completion function in a handler that keeps it.) *)
 Definition is_query (o : op) : bool :=
   match o with OReg _ _ _ | OBuild _ => false | _ => true end.
+Definition is_fire (o : op) : bool := match o with OFire _ _ => true | _ => false end.
 
 Definition obs_at (h : list op) (o : op) : obs := snd (step (final h) o).
 
-Lemma step_query s o : is_query o = true -> fst (step s o) = s.
-Proof. destruct o; try discriminate; reflexivity. Qed.
+Lemma step_query s o : is_query o = true -> g_cols (fst (step s o)) = g_cols s.
+Proof.
+  destruct o as [k e op_|k|k r|k r|k sr r bytes dec c cb b|k r a c cb b|ks rid r bytes dec rawok cx b|n kd];
+    try discriminate; try reflexivity.
+  intros _. simpl. destruct (n <? 0); [reflexivity|].
+  destruct (fire_nth (g_pend s) (Z.to_nat n) kd) as [[d e] l]. reflexivity.
+Qed.
 
-Lemma run_from_queries cs : forall s, forallb is_query cs = true -> fst (run_from s cs) = s.
+Lemma run_from_queries cs : forall s,
+  forallb is_query cs = true -> g_cols (fst (run_from s cs)) = g_cols s.
 Proof.
   induction cs as [|o r IH]; intros s Q; simpl; [reflexivity|].
   simpl in Q. apply andb_true_iff in Q. destruct Q as [Q1 Q2].
-  pose proof (step_query s o Q1) as E. destruct (step s o) as [s1 b]. simpl in E. subst s1.
-  specialize (IH s Q2). destruct (run_from s r) as [s2 bs]. simpl in *. exact IH.
+  pose proof (step_query s o Q1) as E. destruct (step s o) as [s1 b]. simpl in E.
+  specialize (IH s1 Q2). destruct (run_from s1 r) as [s2 bs]. simpl in *. congruence.
+Qed.
+
+Lemma step_obs_cols s s' o :
+  g_cols s = g_cols s' -> is_fire o = false -> snd (step s o) = snd (step s' o).
+Proof.
+  intros E NFi.
+  destruct o as [k e op_|k|k r|k r|k sr r bytes dec c cb b|k r a c cb b|ks rid r bytes dec rawok cx b|n kd];
+    try discriminate; simpl; unfold tables, col; rewrite ?E; reflexivity.
 Qed.
 
 Lemma run_from_app h1 : forall s h2,
@@ -856,32 +944,262 @@ Qed.
 Lemma final_app h1 h2 : final (h1 ++ h2) = fst (run_from (final h1) h2).
 Proof. unfold final. apply run_from_app. Qed.
 
+Lemma final_snoc h o : final (h ++ [o]) = fst (step (final h) o).
+Proof.
+  rewrite final_app. simpl. destruct (step (final h) o) as [s1 b]. reflexivity.
+Qed.
+
 Lemma run_snoc h o : run (h ++ [o]) = run h ++ [obs_at h o].
 Proof.
   unfold run, obs_at, final. destruct (run_from_app h init [o]) as [_ B]. rewrite B. simpl.
   destruct (step (fst (run_from init h)) o) as [s1 b]. reflexivity.
 Qed.
 
-Lemma call_frame h cs o : forallb is_query cs = true -> obs_at (h ++ cs) o = obs_at h o.
+Lemma call_frame h cs o :
+  forallb is_query cs = true -> is_fire o = false -> obs_at (h ++ cs) o = obs_at h o.
 Proof.
-  intro Q. unfold obs_at. rewrite final_app, run_from_queries by exact Q. reflexivity.
+  intros Q NFi. unfold obs_at. apply step_obs_cols; [|exact NFi].
+  rewrite final_app. apply run_from_queries. exact Q.
 Qed.
 
 (* after any history and any further calls whatsoever, a good call runs its target with the value
    THIS call's payload decodes to (into a fresh value), and only with it *)
 Lemma invoked_with_own_payload h cs k s route bytes dec c cb b mt seen :
   forallb is_query cs = true ->
-  f4_ser (ss_built (sfinal h k)) s route dec cb = false ->
-  expect_ser (ss_built (sfinal h k)) s route dec c = VGood mt seen ->
+  f4_ser (ss_built (scol_of (sfinal h) k)) s route dec cb = false ->
+  expect_ser (ss_built (scol_of (sfinal h) k)) s route dec c = VGood mt seen ->
   exists v, decode dec (p_tid (msg_type mt)) = DOk v /\
     obs_at (h ++ cs) (OCallSer k s route bytes dec c cb b) =
     BCall (EvInvoke (m_uid mt) (Some v) ::
            (if cb && is_request mt then map EvComplete (owed b) else [])) false.
 Proof.
-  intros Q NF E. rewrite call_frame by exact Q.
+  intros Q NF E. rewrite call_frame by (exact Q || reflexivity).
   destruct (expect_ser_good _ _ _ _ _ _ _ E) as [_ [_ [_ [v [Sv D]]]]]. exists v. split; [exact D|].
   unfold obs_at. simpl. destruct (tables_of_last_build h k) as [T _]. rewrite T.
   rewrite call_ser_trace by exact NF. rewrite E. subst seen. reflexivity.
+Qed.
+
+(* ---- kept completion functions: each answers ITS OWN call, exactly once ---- *)
+Definition is_err (kd : fkind) : bool := match kd with FErr => true | _ => false end.
+
+(* what running the kept completion function of caller w with kd delivers, and whether it panics *)
+Definition deliver (w : caller) (kd : fkind) : list fev :=
+  match w, kd with
+  | KReq _, FBad => []
+  | KReq rid, _ => [FRsp rid (RspDone (is_err kd))]
+  | KCall pos, _ => [FCall pos (is_err kd)]
+  end.
+Definition escapes (w : caller) (kd : fkind) : bool :=
+  match w, kd with KReq _, FBad => true | _, _ => false end.
+
+Lemma fire_one_done w kd : fire_one (PD w true) kd = ([], false, PD w true).
+Proof. reflexivity. Qed.
+
+Lemma fire_one_fresh w kd :
+  fire_one (PD w false) kd = (deliver w kd, escapes w kd, PD w (negb (escapes w kd))).
+Proof. destruct w, kd; reflexivity. Qed.
+
+Lemma fire_nth_none l : forall n kd, nth_error l n = None -> fire_nth l n kd = ([], false, l).
+Proof.
+  induction l as [|p r IH]; intros n kd E; [destruct n; reflexivity|].
+  destruct n as [|m]; simpl in *; [discriminate|]. rewrite (IH m kd E). reflexivity.
+Qed.
+
+Lemma fire_nth_some l : forall n kd p,
+  nth_error l n = Some p ->
+  exists p', fire_nth l n kd = (fst (fst (fire_one p kd)), snd (fst (fire_one p kd)), firstn n l ++ p' :: skipn (Datatypes.S n) l)
+             /\ p' = snd (fire_one p kd).
+Proof.
+  induction l as [|q r IH]; intros n kd p E; [destruct n; discriminate|].
+  destruct n as [|m]; simpl in *.
+  - inv E. destruct (fire_one p kd) as [[d e] p']. exists p'. split; reflexivity.
+  - destruct (IH m kd p E) as [p' [F Ep]]. rewrite F. exists p'. split; [reflexivity | exact Ep].
+Qed.
+
+Lemma nth_error_replace {A} (l : list A) n x m :
+  (n < length l)%nat ->
+  nth_error (firstn n l ++ x :: skipn (Datatypes.S n) l) m =
+  if Nat.eqb m n then Some x else nth_error l m.
+Proof.
+  revert n m. induction l as [|y r IH]; intros n m L; simpl in L; [lia|].
+  destruct n as [|n']; destruct m as [|m']; simpl; try reflexivity.
+  apply IH. lia.
+Qed.
+
+(* a consumed guard stays consumed, whatever happens later *)
+Definition consumed (s : st) (n : nat) : Prop := exists w, nth_error (g_pend s) n = Some (PD w true).
+
+Lemma consumed_app s n extra cols pos :
+  consumed s n -> consumed (G cols (g_pend s ++ extra) pos) n.
+Proof.
+  intros [w E]. exists w. simpl. rewrite nth_error_app1; [exact E|].
+  apply nth_error_Some. congruence.
+Qed.
+
+Lemma consumed_step s o n : consumed s n -> consumed (fst (step s o)) n.
+Proof.
+  intro C.
+  destruct o as [k e op_|k|k r|k r|k sr r bytes dec c cb b|k r a c cb b|ks rid r bytes dec rawok cx b|m kd];
+    simpl; try exact C; try (apply consumed_app; exact C).
+  destruct (m <? 0); [exact C|].
+  destruct C as [w E].
+  destruct (nth_error (g_pend s) (Z.to_nat m)) as [p|] eqn:Em.
+  - destruct (fire_nth_some _ _ kd _ Em) as [p' [F Ep]]. rewrite F. unfold consumed.
+    cbn [fst g_pend]. exists w.
+    rewrite nth_error_replace by (apply nth_error_Some; congruence).
+    destruct (Nat.eqb_spec n (Z.to_nat m)) as [->|N]; [|exact E].
+    rewrite Em in E. inv E. reflexivity.
+  - rewrite (fire_nth_none _ _ kd Em). simpl. exists w. exact E.
+Qed.
+
+Lemma consumed_run ops : forall s n, consumed s n -> consumed (fst (run_from s ops)) n.
+Proof.
+  induction ops as [|o r IH]; intros s n C; simpl; [exact C|].
+  pose proof (consumed_step s o n C) as C1. destruct (step s o) as [s1 b]. simpl in C1.
+  specialize (IH s1 n C1). destruct (run_from s1 r) as [s2 bs]. exact IH.
+Qed.
+
+Lemma fire_obs s n kd :
+  snd (step s (OFire (Z.of_nat n) kd)) =
+  match nth_error (g_pend s) n with
+  | Some p => BFire (fst (fst (fire_one p kd))) (snd (fst (fire_one p kd)))
+  | None => BFire [] false
+  end.
+Proof.
+  simpl. assert (L : (Z.of_nat n <? 0) = false) by (apply Z.ltb_ge; lia). rewrite L, Nat2Z.id.
+  destruct (nth_error (g_pend s) n) as [p|] eqn:E.
+  - destruct (fire_nth_some _ _ kd _ E) as [p' [F _]]. rewrite F. reflexivity.
+  - rewrite (fire_nth_none _ _ kd E). reflexivity.
+Qed.
+
+(* running a kept completion function whose guard is consumed (its call was already completed:
+   by the handler, by the recover, or by an earlier run) does nothing *)
+Lemma fire_consumed h n h2 kd :
+  consumed (final h) n -> obs_at (h ++ h2) (OFire (Z.of_nat n) kd) = BFire [] false.
+Proof.
+  intro C. unfold obs_at. rewrite fire_obs, final_app.
+  destruct (consumed_run h2 _ _ C) as [w E]. rewrite E. reflexivity.
+Qed.
+
+(* otherwise it answers the call it was given to, with what it is run with, and is consumed
+   (unless the caller's completion function panicked) *)
+Lemma fire_own h n w kd :
+  nth_error (g_pend (final h)) n = Some (PD w false) ->
+  obs_at h (OFire (Z.of_nat n) kd) = BFire (deliver w kd) (escapes w kd) /\
+  (escapes w kd = false -> consumed (final (h ++ [OFire (Z.of_nat n) kd])) n).
+Proof.
+  intro E. split.
+  - unfold obs_at. rewrite fire_obs, E, fire_one_fresh. reflexivity.
+  - intro NE. rewrite final_snoc. simpl.
+    assert (L : (Z.of_nat n <? 0) = false) by (apply Z.ltb_ge; lia). rewrite L, Nat2Z.id.
+    destruct (fire_nth_some _ _ kd _ E) as [p' [F Ep]]. rewrite F. unfold consumed.
+    cbn [fst g_pend]. exists w.
+    rewrite nth_error_replace by (apply nth_error_Some; congruence).
+    rewrite Nat.eqb_refl, Ep, fire_one_fresh, NE. reflexivity.
+Qed.
+
+(* exactly once: whatever a run delivered, no later run of the same function delivers again *)
+Lemma fire_once h n kd d e h2 kd' :
+  obs_at h (OFire (Z.of_nat n) kd) = BFire d e -> d <> [] ->
+  obs_at (h ++ OFire (Z.of_nat n) kd :: h2) (OFire (Z.of_nat n) kd') = BFire [] false.
+Proof.
+  intros O ND.
+  replace (h ++ OFire (Z.of_nat n) kd :: h2) with ((h ++ [OFire (Z.of_nat n) kd]) ++ h2)
+    by (rewrite <- app_assoc; reflexivity).
+  apply fire_consumed.
+  unfold obs_at in O. rewrite fire_obs in O.
+  destruct (nth_error (g_pend (final h)) n) as [[w [|]]|] eqn:E.
+  - rewrite fire_one_done in O. inv O. contradiction.
+  - rewrite fire_one_fresh in O. inv O.
+    apply (fire_own h n w kd E). destruct w, kd; try reflexivity; simpl in ND; contradiction.
+  - inv O. contradiction.
+Qed.
+
+(* every kept completion function belongs to a call of the history that was given one *)
+Definition is_cb_call (o : op) : bool :=
+  match o with
+  | OCallSer _ _ _ _ _ _ cb _ => cb
+  | OCall _ _ _ _ cb _ => cb
+  | _ => false
+  end.
+
+Definition who_ok (h : list op) (w : caller) : Prop :=
+  match w with
+  | KCall pos => 0 <= pos /\ exists o, nth_error h (Z.to_nat pos) = Some o /\ is_cb_call o = true
+  | KReq rid => rid <> 0 /\ exists ks r bytes dec rawok cx b, In (ODispatch ks rid r bytes dec rawok cx b) h
+  end.
+
+Lemma who_ok_snoc h o w : who_ok h w -> who_ok (h ++ [o]) w.
+Proof.
+  destruct w as [pos|rid]; simpl.
+  - intros [P [x [E C]]]. split; [exact P|]. exists x. split; [|exact C].
+    rewrite nth_error_app1; [exact E|]. apply nth_error_Some. congruence.
+  - intros [N [ks [r [by_ [dec [rw [cx [b I]]]]]]]]. split; [exact N|].
+    exists ks, r, by_, dec, rw, cx, b. apply in_or_app. left. exact I.
+Qed.
+
+Lemma call_keeps_cb cs route c a cb b g : call_keeps cs route c a cb b = Some g -> cb = true.
+Proof.
+  unfold call_keeps. destruct (find_handler cs route) as [h|]; [|discriminate].
+  destruct cb; [reflexivity|]. rewrite andb_false_r. discriminate.
+Qed.
+
+Lemma call_ser_keeps_cb cs s route dec c cb b g : call_ser_keeps cs s route dec c cb b = Some g -> cb = true.
+Proof.
+  unfold call_ser_keeps. destruct s; try discriminate;
+    (destruct (get_arg_type cs route) as [t|]; [|discriminate]);
+    (destruct (negb (p_ptr t)); [discriminate|]);
+    (destruct (decode dec (p_tid t)); [|discriminate]); apply call_keeps_cb.
+Qed.
+
+Lemma fire_nth_who l : forall n kd, map pd_who (snd (fire_nth l n kd)) = map pd_who l.
+Proof.
+  induction l as [|p r IH]; intros n kd; [destruct n; reflexivity|].
+  destruct n as [|m]; simpl.
+  - destruct (fire_one p kd) as [[d e] p'] eqn:F. simpl. f_equal.
+    unfold fire_one in F. destruct (pd_done p); [inv F; reflexivity|].
+    destruct (pd_who p) eqn:W, kd; inv F; simpl; congruence.
+  - specialize (IH m kd). destruct (fire_nth r m kd) as [[d e] r']. simpl in *. rewrite IH. reflexivity.
+Qed.
+
+Lemma owners h :
+  g_pos (final h) = Z.of_nat (length h) /\ Forall (who_ok h) (map pd_who (g_pend (final h))).
+Proof.
+  induction h as [|o h IH] using rev_ind; [split; [reflexivity | constructor]|].
+  destruct IH as [P F]. rewrite final_snoc, app_length, Nat2Z.inj_add. simpl length.
+  assert (F' : Forall (who_ok (h ++ [o])) (map pd_who (g_pend (final h)))).
+  { eapply Forall_impl; [|exact F]. intro w. apply who_ok_snoc. }
+  assert (Here : forall x, is_cb_call x = true -> o = x -> who_ok (h ++ [o]) (KCall (g_pos (final h)))).
+  { intros x C ->. simpl. split; [lia|]. exists x. split; [|exact C].
+    rewrite P, Nat2Z.id, nth_error_app2, Nat.sub_diag by lia. reflexivity. }
+  destruct o as [k e op_|k|k r|k r|k sr r bytes dec c cb b|k r a c cb b|ks rid r bytes dec rawok cx b|n kd];
+    simpl; try (split; [lia | exact F']).
+  - split; [lia|]. rewrite map_app. apply Forall_app. split; [exact F'|].
+    destruct (call_ser_keeps (s_cs (col (final h) k)) sr r dec c cb b) as [g|] eqn:K; [|constructor].
+    constructor; [|constructor]. apply call_ser_keeps_cb in K. subst cb.
+    apply (Here (OCallSer k sr r bytes dec c true b) eq_refl eq_refl).
+  - split; [lia|]. rewrite map_app. apply Forall_app. split; [exact F'|].
+    destruct (call_keeps (s_cs (col (final h) k)) r c a cb b) as [g|] eqn:K; [|constructor].
+    constructor; [|constructor]. apply call_keeps_cb in K. subst cb.
+    apply (Here (OCall k r a c true b) eq_refl eq_refl).
+  - split; [lia|]. rewrite map_app. apply Forall_app. split; [exact F'|].
+    destruct (dispatch_keeps (tables (final h) ks) rid r dec cx b) as [g|] eqn:K; [|constructor].
+    constructor; [|constructor]. simpl. split.
+    + unfold dispatch_keeps in K. destruct (is_empty r); [discriminate|].
+      destruct (find _ _); [|discriminate]. apply call_ser_keeps_cb in K.
+      apply negb_true_iff, Z.eqb_neq in K. exact K.
+    + exists ks, r, bytes, dec, rawok, cx, b. apply in_or_app. right. left. reflexivity.
+  - destruct (n <? 0); [split; [simpl; lia | exact F']|].
+    pose proof (fire_nth_who (g_pend (final h)) (Z.to_nat n) kd) as W.
+    destruct (fire_nth (g_pend (final h)) (Z.to_nat n) kd) as [[d e] l]. simpl in *.
+    split; [lia|]. rewrite W. exact F'.
+Qed.
+
+Lemma kept_owner h n p :
+  nth_error (g_pend (final h)) n = Some p -> who_ok h (pd_who p).
+Proof.
+  intro E. destruct (owners h) as [_ F]. rewrite Forall_forall in F. apply F.
+  apply in_map_iff. exists p. split; [reflexivity|]. eapply nth_error_In. exact E.
 Qed.
 
 (* ---- frame: a rejected registration leaves no trace ---- *)
@@ -953,38 +1271,48 @@ Qed.
    registered so far) changes no later observation - whatever is registered, built, queried or
    called afterwards *)
 Definition Same (k : Z) (reg : list eopt) (eo : eopt) (s s' : st) : Prop :=
-  forall j, s_cs (s j) = s_cs (s' j) /\
-    if j =? k then exists more, s_entries (s j) = reg ++ eo :: more /\ s_entries (s' j) = reg ++ more
-    else s_entries (s j) = s_entries (s' j).
+  (forall j, s_cs (col s j) = s_cs (col s' j) /\
+     if j =? k then exists more, s_entries (col s j) = reg ++ eo :: more /\ s_entries (col s' j) = reg ++ more
+     else s_entries (col s j) = s_entries (col s' j)) /\
+  g_pend s = g_pend s' /\ g_pos s = g_pos s'.
 
-Lemma same_tables k reg eo s s' ks :
-  Same k reg eo s s' -> map (fun j => s_cs (s j)) ks = map (fun j => s_cs (s' j)) ks.
-Proof. intro R. apply map_ext. intro j. apply R. Qed.
+Lemma same_tables k reg eo s s' ks : Same k reg eo s s' -> tables s ks = tables s' ks.
+Proof. intros [R _]. apply map_ext. intro j. apply R. Qed.
 
 Lemma same_step k reg eo s s' o :
   rejected (build reg) eo = true -> Same k reg eo s s' ->
   snd (step s o) = snd (step s' o) /\ Same k reg eo (fst (step s o)) (fst (step s' o)).
 Proof.
-  intros Rj R.
-  destruct o as [j e op_|j|j r|j r|j sr r bytes dec c cb b|j r a c cb b|ks rid r bytes dec rawok cx b];
+  intros Rj [R [Rp Rn]].
+  destruct o as [j e op_|j|j r|j r|j sr r bytes dec c cb b|j r a c cb b|ks rid r bytes dec rawok cx b|n kd];
     simpl.
-  - split; [reflexivity|]. intro i. unfold upd. destruct (i =? j) eqn:Eij; [|apply R].
+  - split; [reflexivity|]. split; [|split; simpl; congruence].
+    intro i. unfold col in *. simpl. unfold upd. destruct (i =? j) eqn:Eij; [|apply R].
     apply Z.eqb_eq in Eij. subst i. destruct (R j) as [Rc Re]. simpl. split; [exact Rc|].
     destruct (j =? k).
     + destruct Re as [more [A B]]. exists (more ++ [(e, op_)]).
       rewrite A, B. split; [rewrite <- app_assoc; reflexivity | rewrite <- app_assoc; reflexivity].
     + rewrite Re. reflexivity.
-  - split; [reflexivity|]. intro i. unfold upd. destruct (i =? j) eqn:Eij; [|apply R].
+  - split; [reflexivity|]. split; [|split; simpl; congruence].
+    intro i. unfold col in *. simpl. unfold upd. destruct (i =? j) eqn:Eij; [|apply R].
     apply Z.eqb_eq in Eij. subst i. destruct (R j) as [Rc Re]. simpl.
     destruct (j =? k).
     + destruct Re as [more [A B]]. split; [|exists more; auto].
       rewrite A, B. apply rejected_frame. exact Rj.
     + split; [rewrite Re; reflexivity | exact Re].
-  - destruct (R j) as [Rc _]. rewrite Rc. split; [reflexivity | exact R].
-  - destruct (R j) as [Rc _]. rewrite Rc. split; [reflexivity | exact R].
-  - destruct (R j) as [Rc _]. rewrite Rc. split; [reflexivity | exact R].
-  - destruct (R j) as [Rc _]. rewrite Rc. split; [reflexivity | exact R].
-  - rewrite (same_tables k reg eo s s' ks R). split; [reflexivity | exact R].
+  - destruct (R j) as [Rc _]. rewrite Rc. split; [reflexivity|].
+    split; [exact R | split; simpl; congruence].
+  - destruct (R j) as [Rc _]. rewrite Rc. split; [reflexivity|].
+    split; [exact R | split; simpl; congruence].
+  - destruct (R j) as [Rc _]. rewrite Rc, Rp, Rn. split; [reflexivity|].
+    split; [exact R | split; simpl; congruence].
+  - destruct (R j) as [Rc _]. rewrite Rc, Rp, Rn. split; [reflexivity|].
+    split; [exact R | split; simpl; congruence].
+  - rewrite (same_tables k reg eo s s' ks (conj R (conj Rp Rn))), Rp. split; [reflexivity|].
+    split; [exact R | split; simpl; congruence].
+  - rewrite Rp. destruct (n <? 0); [split; [reflexivity | split; [exact R | split; simpl; congruence]]|].
+    destruct (fire_nth (g_pend s') (Z.to_nat n) kd) as [[d e] l]. split; [reflexivity|].
+    split; [exact R | split; simpl; congruence].
 Qed.
 
 Lemma same_run k reg eo ops : forall s s',
@@ -1010,18 +1338,23 @@ Lemma run_from_cons s o r :
   snd (run_from s (o :: r)) = snd (step s o) :: snd (run_from (fst (step s o)) r).
 Proof. simpl. destruct (step s o) as [s1 b]. simpl. destruct (run_from s1 r). reflexivity. Qed.
 
+(* a rejected Register is a no-op: every later observation is what it is when a plain query
+   (HasMethod of the empty route) stands in its place *)
 Lemma rejected_registration_leaves_no_trace h1 k e o h2 :
-  rejected (build (s_entries (final h1 k))) (e, o) = true ->
-  run (h1 ++ OReg k e o :: h2) = run h1 ++ BUnit :: skipn (length h1) (run (h1 ++ h2)).
+  rejected (build (s_entries (col (final h1) k))) (e, o) = true ->
+  skipn (Datatypes.S (length h1)) (run (h1 ++ OReg k e o :: h2)) =
+  skipn (Datatypes.S (length h1)) (run (h1 ++ OHas k [] :: h2)).
 Proof.
   intro Rj. unfold run.
   destruct (run_from_app h1 init (OReg k e o :: h2)) as [_ B]. rewrite B.
-  destruct (run_from_app h1 init h2) as [_ B']. rewrite B'.
+  destruct (run_from_app h1 init (OHas k [] :: h2)) as [_ B']. rewrite B'.
   pose proof (run_from_length h1 init) as L.
-  rewrite <- L. rewrite skipn_app, skipn_all, Nat.sub_diag. simpl skipn. simpl app at 2.
-  f_equal. fold (final h1). rewrite run_from_cons. simpl step. simpl snd. simpl fst. f_equal.
-  apply (same_run k (s_entries (final h1 k)) (e, o)); [exact Rj|].
-  intro j. unfold upd. destruct (j =? k) eqn:Ejk.
+  rewrite <- L. rewrite !skipn_app.
+  replace (Datatypes.S (length (snd (run_from init h1))) - length (snd (run_from init h1)))%nat with 1%nat by lia.
+  f_equal. fold (final h1). rewrite !run_from_cons. simpl skipn.
+  apply (same_run k (s_entries (col (final h1) k)) (e, o)); [exact Rj|].
+  split; [|split; reflexivity].
+  intro j. unfold col. simpl. unfold upd. destruct (j =? k) eqn:Ejk.
   - apply Z.eqb_eq in Ejk. subst j. simpl. split; [reflexivity|].
     exists []. rewrite app_nil_r. split; reflexivity.
   - split; reflexivity.
@@ -1065,15 +1398,15 @@ Proof.
 Qed.
 
 Lemma completes_exactly_once es s route dec c b :
-  f4_ser es s route dec true = false -> b <> BNever ->
+  f4_ser es s route dec true = false -> b <> BNever -> b <> BDefer ->
   exists tr, call_ser (build es) s route dec c true b = Done tr /\
     length (completions tr) = 1%nat /\
     (expect_ser es s route dec c = VFail -> completions tr = [true]).
 Proof.
-  intros NF NB. destruct (completes_once_partial es s route dec c b NF) as [tr [D Cm]].
+  intros NF NB ND. destruct (completes_once_partial es s route dec c b NF) as [tr [D Cm]].
   exists tr. split; [exact D|]. rewrite Cm.
   destruct (expect_ser es s route dec c); split; auto.
-  - apply (owed_once false b NB).
+  - apply (owed_once false b NB ND).
   - discriminate.
 Qed.
 
